@@ -121,6 +121,100 @@ func bigMessage(g *G, sr bool) *network.Message {
 	}
 }
 
+// hardBlob: n bytes LZ4 gains little or nothing on: 0 high entropy, 1 high entropy with one short run (gain of a
+// few bytes), 2 high entropy with a run sized so that the gain is around the 64 bytes other nodes use as the
+// threshold of keeping the compressed form, 3 high entropy then a long run (the LZ4 decoder defect class).
+func hardBlob(r *prng.R, n, class int) []byte {
+	b := r.Bytes(n)
+	run := 0
+	switch class {
+	case 1:
+		run = 8 + r.Intn(24)
+	case 2:
+		run = 56 + r.Intn(40)
+	case 3:
+		run = 200 + r.Intn(200)
+	}
+	if run > 0 && run < n {
+		at := r.Intn(n - run + 1)
+		x := byte(r.Intn(256))
+		for i := 0; i < run; i++ {
+			b[at+i] = x
+		}
+	}
+	return b
+}
+
+// hardMessage: every payload type that may be compressed, over CompressionMinSize, filled with hardBlob bytes
+// (accounts, hashes and keys of the generator are random too).
+func hardMessage(g *G, sr bool) (*network.Message, string) {
+	r := g.r
+	class := r.Intn(4)
+	n := network.CompressionMinSize + 1 + r.Intn(3000)
+	if r.Chance(1, 4) {
+		n = network.CompressionMinSize + 1 + r.Intn(80) // just over the size
+	}
+	reTx := func(t *transaction.Transaction) *transaction.Transaction {
+		w := io.NewBufBinWriter()
+		t.EncodeBinary(w.BinWriter)
+		t2, err := transaction.NewTransactionFromBytes(w.Bytes())
+		if w.Err != nil || err != nil {
+			return nil
+		}
+		return t2
+	}
+	kind := r.Intn(6)
+	name := fmt.Sprintf("%s/%d", []string{"mptdata", "extensible", "tx", "block", "notary", "addr"}[kind], class)
+	switch kind {
+	case 0:
+		nodes := [][]byte{hardBlob(r, n, class)}
+		for i := r.Intn(3); i > 0; i-- {
+			nodes = append(nodes, hardBlob(r, 40+r.Intn(600), class))
+		}
+		return network.NewMessage(network.CMDMPTData, &payload.MPTData{Nodes: nodes}), name
+	case 1:
+		e := g.extensible()
+		e.Data = hardBlob(r, n, class)
+		return network.NewMessage(network.CMDExtensible, e), name
+	case 2:
+		t := g.tx()
+		t.Script = hardBlob(r, n, class)
+		if t2 := reTx(t); t2 != nil {
+			return network.NewMessage(network.CMDTX, t2), name
+		}
+	case 3:
+		b := g.block(sr)
+		t := g.tx()
+		t.Script = hardBlob(r, n, class)
+		if t2 := reTx(t); t2 != nil {
+			b.Transactions = append(b.Transactions, t2)
+			b.RebuildMerkleRoot()
+			return network.NewMessage(network.CMDBlock, b), name
+		}
+	case 4:
+		nr := g.notaryRequest()
+		nr.MainTransaction.Script = hardBlob(r, n, class)
+		if b, err := encBytes(nr); err == nil {
+			nr2 := &payload.P2PNotaryRequest{}
+			rd := io.NewBinReaderFromBuf(b)
+			nr2.DecodeBinary(rd)
+			if rd.Err == nil {
+				return network.NewMessage(network.CMDP2PNotaryRequest, nr2), name
+			}
+		}
+	default:
+		cnt := 50 + r.Intn(payload.MaxAddrsCount-49)
+		l := payload.NewAddressList(cnt)
+		for i := range l.Addrs {
+			a := &payload.AddressAndTime{Timestamp: g.u32(), Capabilities: g.capabilities()}
+			copy(a.IP[:], r.Bytes(16))
+			l.Addrs[i] = a
+		}
+		return network.NewMessage(network.CMDAddr, l), name
+	}
+	return network.NewMessage(network.CMDMPTData, &payload.MPTData{Nodes: [][]byte{hardBlob(r, n, class)}}), "mptdata/" + fmt.Sprint(class)
+}
+
 func (rn *runner) msgObjCase(k int, r *prng.R) {
 	o := rn.o
 	defer func() {
@@ -132,9 +226,14 @@ func (rn *runner) msgObjCase(k int, r *prng.R) {
 	g.allowInvalid, g.big = false, false
 	sr := r.Bool()
 	var fresh *network.Message
-	if r.Chance(1, 2) {
+	switch r.Intn(5) {
+	case 0, 1:
+		var name string
+		fresh, name = hardMessage(g, sr)
+		o.Count("msgobj:hard:" + name)
+	case 2:
 		fresh = bigMessage(g, sr)
-	} else {
+	default:
 		fresh = g.message(sr)
 	}
 	if g.invalid {
@@ -169,6 +268,19 @@ func (rn *runner) msgObjRun(k int, r *prng.R, sr bool, fresh *network.Message, s
 		if d, err := decodeMessage(sr, freshZ); err != nil || showMessage(d) != want {
 			lz4ok = false
 			o.Count("msgobj:lz4-refused")
+		}
+		// how much LZ4 gains on this payload (sent bytes vs payload bytes)
+		if _, _, rawZ, ok := frameParts(freshZ); ok {
+			switch gain := len(body) - len(rawZ); {
+			case gain <= 0:
+				o.Count("msgobj:gain:none(incompressible)")
+			case gain < 64:
+				o.Count("msgobj:gain:under-64")
+			case gain < 128:
+				o.Count("msgobj:gain:64-127")
+			default:
+				o.Count("msgobj:gain:128+")
+			}
 		}
 	}
 	m := fresh
@@ -304,6 +416,23 @@ func msgObjCorpus() []corpusCase {
 					rn.msgObjRun(k, r, false, m, len(ord), func() bool { i++; return ord[i-1] }, start, 0x80)
 				}
 			}
+		}
+	})
+	// every payload type that may be compressed x every blob class (incompressible .. gain around 64 bytes), as a
+	// fresh object and as one decoded from its own compressed frame
+	cs = append(cs, func(rn *runner, k int) {
+		r := prng.New(818)
+		for i := 0; i < 72; i++ {
+			g := newG(r)
+			g.allowInvalid, g.big = false, false
+			m, name := hardMessage(g, false)
+			if g.invalid {
+				continue
+			}
+			rn.o.Count("msgobj:hard:" + name)
+			ord := [][]bool{{true, false}, {false, true, true}}[i%2]
+			j := 0
+			rn.msgObjRun(k, r, false, m, len(ord), func() bool { j++; return ord[j-1] }, []int{0, 2}[(i/2)%2], 0)
 		}
 	})
 	return cs
